@@ -177,7 +177,13 @@ func childMain() {
 
 func runJob(j Job, emit func(Line)) {
 	c := newCtl()
-	defer c.finish()
+	defer func() {
+		wedged := c.finish()
+		emit(Line{Done: true})
+		if wedged {
+			os.Exit(0) // goroutines of this case stayed behind: the parent starts a clean child
+		}
+	}()
 	play := func(e Ev, nb int) bool {
 		emit(Line{Ev: &e, NB: nb})
 		o := c.do(e)
@@ -220,7 +226,6 @@ func runJob(j Job, emit func(Line)) {
 			}
 		}
 	}
-	emit(Line{Done: true})
 }
 
 // ---------------------------------------------------------------------------
@@ -270,8 +275,17 @@ func (r *runner) run(j Job) (ops []Ev, obs []Obs, nbs []int) {
 		r.ch = startChild()
 		r.ch.in.Write(append(b, '\n'))
 	}
+	retried := false
 	for {
 		line, err := r.ch.out.ReadBytes('\n')
+		if err != nil && len(ops) == 0 && !retried {
+			// the child had retired after its previous case: same job to a new child
+			retried = true
+			r.ch.stop()
+			r.ch = startChild()
+			r.ch.in.Write(append(b, '\n'))
+			continue
+		}
 		if err != nil {
 			// the child died: the event in flight crashed the process
 			r.ch.cmd.Wait()
@@ -559,7 +573,9 @@ func main() {
 	meta.Extra["exhaustive_depth"] = depth
 	meta.Extra["exhaustive_scripts"] = n
 
-	rng := vh.NewRand(o.Seed)
+	// vh.NewRand(s+1) is vh.NewRand(s) advanced by one draw; re-seed from the
+	// first output so that neighbouring seeds give unrelated walks
+	rng := vh.NewRand(vh.NewRand(o.Seed).U64())
 	for i := 0; i < nrand; i++ {
 		f := rng.Fork()
 		ln := 6 + f.Intn(13)
